@@ -5,7 +5,7 @@
     observed from the twelve REAL agents must be accepted (trace inclusion, evaluated by
     vm_compute on every run).  The theorems below say what every accepted history
     satisfies, clause by clause of the property statement. *)
-From Akita Require Import Lib.Base C18.Model C18.Proofs.
+From Akita Require Import Lib.Base C18.Model C18.Proofs C18.Ideal.
 Local Open Scope N_scope.
 
 (** Clause 1 — every control request receives exactly one response carrying its command and
@@ -168,6 +168,42 @@ Proof.
   - apply remove1_nodup_notin, ND.
 Qed.
 Print Assumptions c18_answered_at_most_once.
+
+(** Exact tick-level model of the smallest agent (ideal memory controller control path,
+    [Ideal.ideal_tick], compared tick by tick with the real component): for EVERY sequence of
+    arrivals, outgoing-buffer occupancies and in-flight states, the requests received so far
+    are exactly the answered ones (same ID and command, same order), then the Drain in
+    progress, then the queued ones. *)
+Theorem c18_ideal_one_response_in_order : forall ticks sf outs,
+  ideal_run ist0 ticks = (sf, outs) ->
+  all_arrivals ticks = map rsp_key outs ++ in_progress sf ++ i_queue sf.
+Proof. intros ticks sf outs H. exact (ideal_fifo ticks ist0 sf outs H). Qed.
+Print Assumptions c18_ideal_one_response_in_order.
+
+(** ... Pause/Drain/Enable/Reset are acknowledged with success, everything else is refused as
+    unsupported; a Drain is acknowledged only when nothing is in flight and leaves the
+    controller Paused; the tick that acknowledges a Reset ends Enabled with the in-flight
+    transactions discarded. *)
+Theorem c18_ideal_verbs : forall s free e s' out cl, ideal_tick s free e = (s', out, cl) ->
+  forall r, In r out -> verb_ok r.
+Proof. exact ideal_verbs. Qed.
+Print Assumptions c18_ideal_verbs.
+
+Theorem c18_ideal_drain_quiescent_paused : forall s free e s1 out f1, state_update s free e = (s1, out, f1) ->
+  forall rt ok err, In (IRsp 1 rt ok err) out -> e = true /\ i_state s1 = 2 /\ rt = i_cur s /\ i_state s = 3.
+Proof. exact ideal_drain_ack. Qed.
+Print Assumptions c18_ideal_drain_quiescent_paused.
+
+Theorem c18_ideal_reset_quiescent_enabled : forall s free e s' out cl, ideal_tick s free e = (s', out, cl) ->
+  forall rt ok err, In (IRsp 3 rt ok err) out -> i_state s' = 0 /\ cl = true /\ i_cur s' = 0.
+Proof. exact ideal_reset_ack. Qed.
+Print Assumptions c18_ideal_reset_quiescent_enabled.
+
+Example c18_ideal_nonvacuous :
+  ideal_run ist0 [mk_itick [(5, 1); (6, 4); (7, 0)] 2 false; mk_itick [] 2 false; mk_itick [(8, 2)] 2 true;
+                  mk_itick [] 1 true; mk_itick [] 0 true; mk_itick [] 1 true] =
+  (mk_ist 0 5 [], [IRsp 1 5 true 0; IRsp 4 6 false 1; IRsp 0 7 true 0; IRsp 2 8 true 0]).
+Proof. vm_compute. reflexivity. Qed.
 
 (** Non-vacuity: a full legal life cycle of a cache-like agent (traffic, pause with a request
     queued meanwhile, invalidate, enable, drain, flush, reset, an unknown verb) is accepted. *)
